@@ -1,0 +1,346 @@
+//! Access to the worker components (Syncer, Daser, Pruner), the mocked `P2p`,
+//! `HeaderSession`, `BroadcastingStore` and the pure helper functions they use.
+
+use std::sync::Arc;
+use std::time::Duration;
+
+use blockstore::Blockstore;
+use celestia_proto::p2p::pb::HeaderRequest;
+use celestia_types::ExtendedHeader;
+use cid::Cid;
+use tendermint::Time;
+use tokio::sync::{broadcast, mpsc, oneshot};
+
+use crate::block_ranges::{BlockRange, BlockRanges};
+use crate::daser::{Daser, DaserArgs, DaserCmd};
+use crate::events::{EventChannel, EventSubscriber};
+use crate::node::subscriptions::BroadcastingStore;
+use crate::p2p::{P2p, P2pCmd, P2pError};
+use crate::pruner::{Pruner, PrunerArgs};
+use crate::store::{Store, StoreError};
+use crate::syncer::{Syncer, SyncerArgs, SyncingInfo};
+use crate::test_utils::{MockDaserHandle, MockP2pHandle};
+
+/// `calculate_range_to_fetch` of the syncer.
+pub fn calculate_range_to_fetch(head: u64, synced: &[BlockRange], limit: u64) -> BlockRange {
+    crate::syncer::verif_hooks::calculate_range_to_fetch(head, synced, limit)
+}
+
+/// The pruner's window search together with the cache it keeps between calls.
+pub struct WindowSearch(crate::pruner::verif_hooks::SearchCache);
+
+impl WindowSearch {
+    pub fn new() -> Self {
+        WindowSearch(Default::default())
+    }
+
+    /// `find_height_after_window`; `mode`: 0 = combined, 1 = fast path only (None = "needs
+    /// binary search"), 2 = slow path only.
+    pub async fn find<S: Store>(
+        &mut self,
+        store: &S,
+        stored: &BlockRanges,
+        cutoff: &Time,
+        prev: Option<u64>,
+        mode: u8,
+    ) -> Result<Option<Option<u64>>, String> {
+        crate::pruner::verif_hooks::find(&mut self.0, store, stored, cutoff, prev, mode).await
+    }
+}
+
+impl Default for WindowSearch {
+    fn default() -> Self {
+        Self::new()
+    }
+}
+
+/// Event channel shared by the components started through this module.
+pub struct Events(EventChannel);
+
+impl Events {
+    pub fn new() -> Self {
+        Events(EventChannel::new())
+    }
+    pub fn subscribe(&self) -> EventSubscriber {
+        self.0.subscribe()
+    }
+}
+
+impl Default for Events {
+    fn default() -> Self {
+        Self::new()
+    }
+}
+
+/// Handle to the (mocked) `P2p` component.
+#[derive(Clone)]
+pub struct VP2p(Arc<P2p>);
+
+impl VP2p {
+    /// `P2p::get_verified_headers_range`.
+    pub async fn get_verified_headers_range(
+        &self,
+        from: &ExtendedHeader,
+        amount: u64,
+    ) -> Result<Vec<ExtendedHeader>, P2pError> {
+        self.0.get_verified_headers_range(from, amount).await
+    }
+}
+
+/// Mocked `P2p` (same as the `#[cfg(test)]` `P2p::mocked`).
+pub fn mocked_p2p() -> (VP2p, MockP2pHandle) {
+    let (p2p, handle) = crate::p2p::verif_hooks::mocked();
+    (VP2p(Arc::new(p2p)), handle)
+}
+
+/// A command the mocked `P2p` received.
+pub enum MockCmd {
+    HeaderEx {
+        request: HeaderRequest,
+        respond_to: oneshot::Sender<Result<Vec<ExtendedHeader>, P2pError>>,
+    },
+    InitHeaderSub {
+        head: ExtendedHeader,
+    },
+    GetShwapCid {
+        cid: Cid,
+        respond_to: oneshot::Sender<Result<Vec<u8>, P2pError>>,
+    },
+    Other(String),
+}
+
+fn convert(handle: &mut MockP2pHandle, cmd: P2pCmd) -> MockCmd {
+    match cmd {
+        P2pCmd::HeaderExRequest {
+            request,
+            respond_to,
+        } => MockCmd::HeaderEx {
+            request,
+            respond_to,
+        },
+        P2pCmd::InitHeaderSub { head, channel } => {
+            handle.header_sub_tx = Some(channel);
+            MockCmd::InitHeaderSub { head: *head }
+        }
+        P2pCmd::GetShwapCid { cid, respond_to } => MockCmd::GetShwapCid { cid, respond_to },
+        other => MockCmd::Other(format!("{other:?}")),
+    }
+}
+
+/// Next command without waiting.
+pub fn try_recv_cmd(handle: &mut MockP2pHandle) -> Option<MockCmd> {
+    let cmd = handle.cmd_rx.try_recv().ok()?;
+    Some(convert(handle, cmd))
+}
+
+/// Next command; `None` when every sender is gone.
+pub async fn recv_cmd(handle: &mut MockP2pHandle) -> Option<MockCmd> {
+    let cmd = handle.cmd_rx.recv().await?;
+    Some(convert(handle, cmd))
+}
+
+/// Build the `P2pError`s a header-ex exchange can end with.
+pub fn header_ex_error(kind: &str) -> P2pError {
+    use crate::p2p::HeaderExError as E;
+    match kind {
+        "not_found" => P2pError::HeaderEx(E::HeaderNotFound),
+        "invalid_response" => P2pError::HeaderEx(E::InvalidResponse),
+        "invalid_request" => P2pError::HeaderEx(E::InvalidRequest),
+        "outbound_failure" => {
+            P2pError::HeaderEx(E::OutboundFailure(libp2p::request_response::OutboundFailure::Timeout))
+        }
+        "timeout" => P2pError::RequestTimedOut,
+        "worker_died" => P2pError::WorkerDied,
+        _ => P2pError::HeaderEx(E::OutboundFailure(
+            libp2p::request_response::OutboundFailure::ConnectionClosed,
+        )),
+    }
+}
+
+/// Is this the answer the real header-ex client gives to an invalid request?
+pub fn is_header_ex_error(e: &P2pError) -> bool {
+    matches!(e, P2pError::HeaderEx(_))
+}
+
+/// Run a `HeaderSession` for `range` over the mocked `P2p`'s command channel.
+pub async fn header_session_run(
+    p2p: &VP2p,
+    range: BlockRange,
+) -> Result<Vec<ExtendedHeader>, P2pError> {
+    crate::p2p::verif_hooks::header_session_run(&p2p.0, range).await
+}
+
+/// `P2p::get_unverified_header_range`.
+pub async fn get_unverified_header_range(
+    p2p: &VP2p,
+    range: BlockRange,
+) -> Result<Vec<ExtendedHeader>, P2pError> {
+    p2p.0.get_unverified_header_range(range).await
+}
+
+/// The syncer.
+pub struct VSyncer<S: Store + 'static>(Syncer<S>);
+
+impl<S: Store + 'static> VSyncer<S> {
+    pub fn start(
+        p2p: &VP2p,
+        store: Arc<S>,
+        events: &Events,
+        batch_size: u64,
+        sampling_window: Duration,
+        pruning_window: Duration,
+    ) -> Result<Self, String> {
+        Syncer::start(SyncerArgs {
+            p2p: p2p.0.clone(),
+            store,
+            event_pub: events.0.publisher(),
+            batch_size,
+            sampling_window,
+            pruning_window,
+        })
+        .map(VSyncer)
+        .map_err(|e| e.to_string())
+    }
+    pub async fn info(&self) -> Result<SyncingInfo, String> {
+        self.0.info().await.map_err(|e| e.to_string())
+    }
+    pub async fn subscribe_headers(&self) -> Result<broadcast::Receiver<ExtendedHeader>, String> {
+        self.0.subscribe_headers().await.map_err(|e| e.to_string())
+    }
+    pub fn stop(&self) {
+        self.0.stop()
+    }
+    pub async fn join(&self) {
+        self.0.join().await
+    }
+}
+
+/// The data availability sampler.
+pub struct VDaser(Arc<Daser>);
+
+impl VDaser {
+    pub fn start<S: Store + 'static>(
+        p2p: &VP2p,
+        store: Arc<S>,
+        events: &Events,
+        sampling_window: Duration,
+        concurrency_limit: usize,
+        additional_headersub_concurrency: usize,
+    ) -> Result<Self, String> {
+        Daser::start(DaserArgs {
+            p2p: p2p.0.clone(),
+            store,
+            event_pub: events.0.publisher(),
+            sampling_window,
+            concurrency_limit,
+            additional_headersub_concurrency,
+        })
+        .map(|d| VDaser(Arc::new(d)))
+        .map_err(|e| e.to_string())
+    }
+    /// Mocked daser (same as the `#[cfg(test)]` `Daser::mocked`).
+    pub fn mocked() -> (Self, MockDaserHandle) {
+        let (daser, handle) = crate::daser::verif_hooks::mocked();
+        (VDaser(Arc::new(daser)), handle)
+    }
+    pub async fn want_to_prune(&self, height: u64) -> Result<bool, String> {
+        self.0.want_to_prune(height).await.map_err(|e| e.to_string())
+    }
+    pub async fn update_highest_prunable_block(&self, value: u64) -> Result<(), String> {
+        self.0
+            .update_highest_prunable_block(value)
+            .await
+            .map_err(|e| e.to_string())
+    }
+    pub async fn update_number_of_prunable_blocks(&self, value: u64) -> Result<(), String> {
+        self.0
+            .update_number_of_prunable_blocks(value)
+            .await
+            .map_err(|e| e.to_string())
+    }
+    pub fn stop(&self) {
+        self.0.stop()
+    }
+    pub async fn join(&self) {
+        self.0.join().await
+    }
+}
+
+/// A command the mocked `Daser` received.
+pub enum MockDaserCmd {
+    WantToPrune {
+        height: u64,
+        respond_to: oneshot::Sender<bool>,
+    },
+    UpdateHighestPrunableHeight(u64),
+    UpdateNumberOfPrunableBlocks(u64),
+}
+
+/// Next command sent to the mocked daser; `None` when every sender is gone.
+pub async fn recv_daser_cmd(handle: &mut MockDaserHandle) -> Option<MockDaserCmd> {
+    Some(match handle.cmd_rx.recv().await? {
+        DaserCmd::WantToPrune { height, respond_to } => {
+            MockDaserCmd::WantToPrune { height, respond_to }
+        }
+        DaserCmd::UpdateHighestPrunableHeight { value } => {
+            MockDaserCmd::UpdateHighestPrunableHeight(value)
+        }
+        DaserCmd::UpdateNumberOfPrunableBlocks { value } => {
+            MockDaserCmd::UpdateNumberOfPrunableBlocks(value)
+        }
+    })
+}
+
+/// The pruner.
+pub struct VPruner(Pruner);
+
+impl VPruner {
+    #[allow(clippy::too_many_arguments)]
+    pub fn start<S: Store + 'static, B: Blockstore + 'static>(
+        daser: &VDaser,
+        store: Arc<S>,
+        blockstore: Arc<B>,
+        events: &Events,
+        block_time: Duration,
+        pruning_window: Duration,
+        sampling_window: Duration,
+    ) -> Self {
+        VPruner(Pruner::start(PrunerArgs {
+            daser: daser.0.clone(),
+            store,
+            blockstore,
+            event_pub: events.0.publisher(),
+            block_time,
+            pruning_window,
+            sampling_window,
+        }))
+    }
+    pub fn stop(&self) {
+        self.0.stop()
+    }
+    pub async fn join(&self) {
+        self.0.join().await
+    }
+}
+
+/// `BroadcastingStore` of the header subscriptions.
+pub struct VBroadcastingStore<S: Store>(BroadcastingStore<S>);
+
+impl<S: Store> VBroadcastingStore<S> {
+    pub fn new(store: Arc<S>) -> Self {
+        VBroadcastingStore(BroadcastingStore::new(store))
+    }
+    pub fn init_broadcast(&mut self, head: ExtendedHeader) {
+        self.0.init_broadcast(head)
+    }
+    pub fn subscribe(&self) -> broadcast::Receiver<ExtendedHeader> {
+        self.0.subscribe()
+    }
+    pub async fn announce_insert(&mut self, range: Vec<ExtendedHeader>) -> Result<(), StoreError> {
+        self.0.announce_insert(range).await
+    }
+}
+
+/// Unused helper kept so that `mpsc` stays referenced when features change.
+#[allow(dead_code)]
+fn _unused(_: mpsc::Sender<()>) {}
